@@ -102,7 +102,7 @@ fn main() {
         out,
         known,
         replay: arg(&args, "--replay"),
-        case_limit_s: arg(&args, "--case-limit-s").and_then(|s| s.parse().ok()).unwrap_or(30),
+        case_limit_s: arg(&args, "--case-limit-s").and_then(|s| s.parse().ok()).unwrap_or(120),
     };
     let code = pv::checks::dispatch(&ctx);
     pv::lsp::kill_all_children();
